@@ -1686,7 +1686,7 @@ impl PoolExec {
             .map(|t| {
                 let ins: u64 = t.inputs().into_iter().filter_map(|i| live_or(&st_p.cells, &live, &i.previous_output())).sum();
                 let outs: u64 = t.outputs().into_iter().map(|o| { let c: Capacity = o.capacity().into(); c.as_u64() }).sum();
-                MTx { tx: t.clone(), fee: ins.saturating_sub(outs), id: t.proposal_short_id() }
+                MTx { tx: t.clone(), fee: ins.saturating_sub(outs), id: t.proposal_short_id(), bad: None }
             })
             .collect();
         let cb = self.w.build_plain(p, deltas[wc as usize], seed0 + wc, vec![], mtxs);
